@@ -8,7 +8,7 @@ import numpy as np
 
 
 def wcs_simple(rot_deg=0.0, cdelt=1e-3, proj='TAN', ctype=('RA', 'DEC'), crval=(40.0, 20.0), crpix=(50.0, 60.0), flip=False,
-               radesys=None):
+               radesys=None, equinox=None):
     """A celestial WCS: projection, rotation (PC matrix), scale, parity, axis types, reference value."""
     import math
     from astropy.wcs import WCS
@@ -27,6 +27,8 @@ def wcs_simple(rot_deg=0.0, cdelt=1e-3, proj='TAN', ctype=('RA', 'DEC'), crval=(
             w.wcs.equinox = 1950.0
         elif radesys == 'FK5':
             w.wcs.equinox = 2000.0
+    if equinox is not None:
+        w.wcs.equinox = float(equinox)
     w.wcs.set()
     return w
 
